@@ -24,7 +24,7 @@ RULE = (
     "None/uniform/random/integer, the 4 with_center/with_trace combinations; even indices judge KernelNormalizer, odd indices "
     "SparseKernelCenterer with an active set of any size (training rows or arbitrary points; 15%: fewer training samples than "
     "independent active points); 40% of the estimators have a past (weighted fit on another kernel of the same size, other flags, "
-    "then set_params). non-trivial = weighted or "
+    "then set_params; when the sizes agree the judged fit receives the very array objects of that earlier fit, overwritten with the new kernels). non-trivial = weighted or "
     "test size != n; distinct by data+config hash."
 )
 ASSUMPTIONS = [
